@@ -2,7 +2,7 @@
 import copy
 
 from ..common import Sub
-from ..e1 import engine, gen, ref, reduce
+from ..e1 import engine, gen, ref, reduce, oracles
 
 RULE = ("programs drawn shape-first (chain/tree/comb/diamond/re-entry comb/staggered/free-form) and decorated; "
         "non-trivial = at least 2 tasks, at least 1 batch flush, and (a nested yield structure, or >= 2 batch kinds, or a shared/re-yielded future); "
@@ -43,7 +43,7 @@ def compare(env, r, exp, viol, tag=""):
 
 def check(prog, ctx):
     viol = []
-    env = engine.run_program(prog)
+    env = oracles.first(prog)
     r, exp = expected(prog, env)
     compare(env, r, exp, viol)
     # metamorphic: every calling convention, and the reversed priority table (another flush order)
@@ -68,7 +68,6 @@ def check(prog, ctx):
         if viol:
             break
     if not viol:
-        from ..e1 import oracles
         env_b = oracles.again(prog, env)
         if env_b is not None:
             v2 = []
